@@ -6,6 +6,7 @@
    models of link() and of the restorer state machine are corresponded against the real code. *)
 From Coq Require Import List String ZArith NArith Bool Lia.
 Import ListNotations.
+From DV Require Import Model.Decision Gen.EntrySrc.
 From DV Require Import Model.Tree Model.Tables Model.Skeleton Model.FragSkel Model.Link Model.Restore
      Proofs.LinkProofs Proofs.LinkPanic Proofs.LinkChunk Proofs.RestoreProofs Proofs.RelocProofs
      Model.Fragment Model.Decorate Proofs.FragReach Proofs.DecReach Proofs.Pipeline Proofs.RestReach Proofs.EndToEnd Gen.DecTbl
@@ -133,6 +134,26 @@ Theorem C01_package_files_decorated_one_at_a_time : package_files_decorated_one_
 Proof. vm_compute. reflexivity. Qed.
 
 
+
+(* "all entry points": the package-level helpers and the Print / Fprint / RestoreFile methods are wrappers, translated on every run (bindings inlined, the error check as a guard, the returned expression as a symbol): every parse helper is the Decorator method on a fresh Decorator over the given FileSet; every Print is Fprint to os.Stdout; every Fprint returns the error of its own RestoreFile or format.Node of the restored file over the restorer's FileSet; Restorer.RestoreFile is FileRestorer().RestoreFile -- so the theorems about RestoreFile and the assumption P about format.Node cover every way of printing *)
+Theorem C01_every_entry_point_is_the_one_pipeline :
+  entry_points_src =
+  [("Parse", [DRet (DVal "NewDecorator(token.NewFileSet()).Parse(src)")]);
+   ("ParseFile", [DRet (DVal "NewDecorator(fset).ParseFile(filename,src,mode)")]);
+   ("ParseDir", [DRet (DVal "NewDecorator(fset).ParseDir(dir,filter,mode)")]);
+   ("Decorate", [DRet (DVal "NewDecorator(fset).DecorateNode(n)")]);
+   ("DecorateFile", [DRet (DVal "NewDecorator(fset).DecorateFile(f)")]);
+   ("Print", [DRet (DVal "Fprint(os.Stdout,f)")]);
+   ("Fprint", [DGuard "fails(RestoreFile(f))" false DErr; DRet (DVal "format.Node(w,RestoreFile(f).0,RestoreFile(f).1)")]);
+   ("RestoreFile", [DGuard "fails(NewRestorer().RestoreFile(file))" false DErr;
+                    DRet (DVal "NewRestorer().Fset , NewRestorer().RestoreFile(file) , nil")]);
+   ("Restorer.Print", [DRet (DVal "pr.Fprint(os.Stdout,f)")]);
+   ("Restorer.Fprint", [DGuard "fails(pr.RestoreFile(f))" false DErr; DRet (DVal "format.Node(w,pr.Fset,pr.RestoreFile(f))")]);
+   ("Restorer.RestoreFile", [DRet (DVal "pr.FileRestorer().RestoreFile(file)")]);
+   ("FileRestorer.Print", [DRet (DVal "r.Fprint(os.Stdout,f)")]);
+   ("FileRestorer.Fprint", [DGuard "fails(r.RestoreFile(f))" false DErr; DRet (DVal "format.Node(w,r.Fset,r.RestoreFile(f))")])].
+Proof. vm_compute. reflexivity. Qed.
+
 Print Assumptions C01_fragments_cover_every_part.
 Print Assumptions C01_restorer_mirrors_decorator.
 Print Assumptions C01_entry_points_differ_only_in_base.
@@ -143,3 +164,4 @@ Print Assumptions C01_link_spacing_is_applied.
 Print Assumptions C01_trailing_comment_goes_to_end.
 Print Assumptions C01_restorer_starts_from_init_state.
 Print Assumptions C01_package_files_decorated_one_at_a_time.
+Print Assumptions C01_every_entry_point_is_the_one_pipeline.
